@@ -249,6 +249,11 @@ func (x *XObject) ensureInitialized() {
 // XObjectEmpty is the empty empty
 var XObjectEmpty = NewXObject(map[string]XValue{})
 
+func init() {
+	// objects are initialized lazily, which isn't safe to leave to concurrent users of this shared instance
+	XObjectEmpty.ensureInitialized()
+}
+
 var _ json.Marshaler = (*XObject)(nil)
 
 // ToXObject converts the given value to an object
